@@ -1027,6 +1027,25 @@ def check(case, d, labels, excluded, known_keys):
                 qq = run(q, cwd=d, timeout=60)
                 crash(qq, api, q)
                 out.append((reqil, [(dl[i], qq.res[l]) for i, l in enumerate(rl)]))
+            if ncomp == 1 and dl:
+                # the caller's buffer may be wider than the image: rows are then spread to the buffer's width
+                wq = Prog()
+                wl_ = []
+                for (x_, y_, third) in dl:
+                    wx = x_ + 1 + (case.get("slabw") or [0])[0] % max(x_, 1)
+                    wq.call("i", "%sgetdims" % api, F, Out(4), Out(4), Out(4))
+                    wl_.append((wq.call("i", "DFR8getimage", F, Out(max(wx * y_, 1)), wx, y_, Out(768)), wx))
+                wqq = run(wq, cwd=d, timeout=60)
+                crash(wqq, api + " (wide buffer)", wq)
+                for (x_, y_, third), (l, wx), (_d, exact) in zip(dl, wl_, out[0][1]):
+                    if exact.ret != 0:
+                        continue
+                    r_ = wqq.res[l]
+                    rows = [r_.bufs[0][j * wx:j * wx + x_] for j in range(y_)] if r_.ret == 0 else None
+                    if rows is None or b"".join(rows) != exact.bufs[0][:x_ * y_]:
+                        raise Fail("DFR8getimage into a buffer wider than the image returns other pixels than into an exact one",
+                                   image=[x_, y_], buffer_width=wx, ret=r_.ret, program=prog)
+                    labels.add("dfr8_wide_buffer")
             return out
 
         if ri8:
